@@ -320,12 +320,24 @@ func vhC11Spec(toks []vhC11Tok) *Path {
 }
 
 func VH_C11_tokens_Q() {
-	vhC11StubRawBuilders()
-	vStub("math.Pow10", vhC11Pow10)
 	style := vChoose(0, 2)
 	ncmd := vChoose(1, 2+vTier())
 	// bounds: plain style: up to 2 (thorough 3) commands after the moveto; other styles one fewer
 	vAssume(style == 0 || ncmd <= 1+vTier())
+	vhC11TokensBody(vhC11Letters, style, ncmd)
+}
+
+// C11-H2b: the same comparison for longer command sequences over the letters that manage the
+// current point and the subpath start (M m L l Z z): up to 4 (thorough 5) commands after the
+// leading moveto, plain separator style.  Covers the current point after closepath for second
+// and later subpaths and relative movetos after a closepath.
+func VH_C11_tokens_subpaths_Q() {
+	vhC11TokensBody("MmLlZz", 0, vChoose(3, 4+vTier()))
+}
+
+func vhC11TokensBody(letters string, style, ncmd int) {
+	vhC11StubRawBuilders()
+	vStub("math.Pow10", vhC11Pow10)
 	toks := []vhC11Tok{}
 	b := []byte{}
 	// leading moveto, absolute or relative
@@ -337,9 +349,9 @@ func VH_C11_tokens_Q() {
 		t := vhC11Tok{cmd: eff}
 		if k > 0 {
 			// 0..19: explicit letter; 20: repeat the previous command without its letter
-			c := vChoose(0, len(vhC11Letters))
-			if c < len(vhC11Letters) {
-				t.cmd = vhC11Letters[c]
+			c := vChoose(0, len(letters))
+			if c < len(letters) {
+				t.cmd = letters[c]
 			} else {
 				prev := toks[k-1].cmd
 				if prev == 'Z' || prev == 'z' {
